@@ -1,4 +1,57 @@
-import Rngs.Model.Xoshiro
+/-
+  C18 — Output streams are identical across build profiles and feature sets.
+  What a model can carry: the only profile-dependent semantics of safe integer Rust are the
+  arithmetic-overflow checks and `debug_assert!`s of builds with `overflow-checks` /
+  `debug-assertions` (the dev profile).  `Rngs/Checked/*` is the dev-profile meaning of the source
+  (every check made explicit), `Rngs/Model/*` is the release-profile meaning (wrapping / unchecked).
+  The theorems below (corollaries of C14) say the two meanings coincide on every input and history:
+  the checked run never takes an error branch and returns exactly the unchecked run's values.
+  The serde feature only adds derives (no `cfg(feature)` code in any generator body).
+  NOT carried by a theorem (labelled partial): optimisation levels — covered by replaying one corpus
+  through harness builds in 2 (quick) / 8 (thorough) configurations —, the compiler itself, other
+  targets (32-bit usize, big-endian).
+-/
+import Rngs.Props.C14
 namespace Rngs.C18
-theorem placeholder : True := trivial
+open Rngs Rngs.Checked
+
+/-- Hc128Rng, any seed, any operation history: dev meaning = release meaning. -/
+theorem hc128_profiles_agree (seed : List U8) (h : seed.length = 32) (ops : List Op)
+    (hops : ∀ op, op ∈ ops → op.wf) :
+    Checked.BlockRng.runC Checked.Hc128.blockCoreC ops (Rngs.Hc128.fromSeed seed) =
+      .ok (Checked.BlockRng.runM Rngs.Hc128.blockCore ops (Rngs.Hc128.fromSeed seed)) :=
+  C14.hc128_history seed h ops hops
+
+/-- IsaacRng / Isaac64Rng from any state satisfying the structural invariant, any history. -/
+theorem isaac32_profiles_agree (r : Rngs.Isaac.Rng32)
+    (h : Checked.BlockRng.Inv Rngs.Isaac.blockCore32 Checked.Isaac.CoreInv r) (ops : List Op)
+    (hops : ∀ op, op ∈ ops → op.wf) :
+    Checked.BlockRng.runC Checked.Isaac.blockCoreC32 ops r = .ok (Checked.BlockRng.runM Rngs.Isaac.blockCore32 ops r) :=
+  (C14.isaac32_ops r h).2.2.2 ops hops
+
+theorem isaac64_profiles_agree (r : Rngs.Isaac.Rng64)
+    (h : Checked.BlockRng64.Inv Rngs.Isaac.blockCore64 Checked.Isaac.CoreInv r) (ops : List Op)
+    (hops : ∀ op, op ∈ ops → op.wf) :
+    Checked.BlockRng64.runC Checked.Isaac.blockCoreC64 ops r = .ok (Checked.BlockRng64.runM Rngs.Isaac.blockCore64 ops r) :=
+  (C14.isaac64_ops r h).2.2.2 ops hops
+
+/-- JitterRng under any scripted timer, any history without `set_rounds(0)`: the dev build computes
+    exactly what the release build computes (and never panics). -/
+theorem jitter_profiles_agree (ops : List Checked.Jitter.Op)
+    (hops : ∀ op, op ∈ ops → op ≠ .setRounds 0) (rs : List U64) :
+    Checked.Jitter.runC ops Rngs.Jitter.newWithTimer rs =
+      .ok (Checked.Jitter.runM ops Rngs.Jitter.newWithTimer rs) :=
+  (C14.jitter_history ops hops rs).1
+
+/-- the non-buffered generators: `fill_bytes_via_next` is the only code with partial operations
+    (slicing); for every generator, length and state the dev meaning is the release meaning. -/
+theorem direct_profiles_agree {σ : Type} (g : Direct σ) (n : Nat) (s : σ) :
+    Checked.fillBytesViaNext g n s = .ok (Rngs.fillBytesViaNext g n s) :=
+  C14.fillBytesViaNext_no_panic g n s
+
+/-- jumps: the `1 << b` of `impl_jump!` never shifts by the width or more -/
+theorem xoshiro256PlusPlus_jump_profiles_agree (s : S4 64) :
+    Checked.jumpLoop Xoshiro256PlusPlus.step S4.xor S4.zero XOSHIRO256_JUMP s = .ok (Xoshiro256PlusPlus.jump s) :=
+  C14.xoshiro256PlusPlus_no_panic.2.2.2.2.1 s
+
 end Rngs.C18
